@@ -130,7 +130,20 @@ def sweep_date(rng, thorough):
     return "date_ok", "str * bool", "fun c => Bool.eqb (date_ok (fst c)) (snd c)", items, cases
 
 
-SWEEPS = [sweep_utf8, sweep_lines, sweep_scheme, sweep_lower, sweep_dec, sweep_quotes, sweep_date]
+def sweep_encode(rng, thorough):
+    """Playlists.utf8_encode against str.encode() on strings of scalar values."""
+    pool = [0, 0x41, 0x7F, 0x80, 0x7FF, 0x800, 0xFFF, 0x1000, 0xD7FF, 0xE000, 0xFFFD, 0xFFFF, 0x10000, 0x3FFFF, 0x40000, 0xFFFFF, 0x100000, 0x10FFFF]
+    cases = [chr(c) for c in pool]
+    if thorough:
+        cases += [chr(c) for c in range(0, 0x3000)]
+    for _ in range(6000 if thorough else 1200):
+        cases.append("".join(chr(rng.choice(pool) if rng.random() < 0.5 else rng.choice([rng.randrange(0, 0xD800), rng.randrange(0xE000, 0x110000)]))
+                             for _ in range(rng.randint(0, 5))))
+    items = [f"({g_str(s)}, {g_bytes(s.encode())})" for s in cases]
+    return "utf8_encode", "str * bytes", "fun c => str_eqb (utf8_encode (fst c)) (snd c) && forallb scalar (fst c)", items, cases
+
+
+SWEEPS = [sweep_encode, sweep_utf8, sweep_lines, sweep_scheme, sweep_lower, sweep_dec, sweep_quotes, sweep_date]
 
 
 def run(chk, _fx=None):
